@@ -79,6 +79,19 @@ func buildC03(tier string, seed int64) *Family {
 			}
 		}
 	}
+	// a positional child step inside a predicate: evaluated once per candidate, it must
+	// start from the candidate's own children every time
+	inCfg := docCfg{N: cfg.N, A: 0, Names: "a,b", Pool: ","}
+	for i, p := range append(append([]string{}, pos...), "position() > 0") {
+		if tier != "thorough" && i%2 == 1 {
+			continue
+		}
+		add("//*[*["+p+"]]", inCfg)
+		if i%4 == 0 || tier == "thorough" {
+			add("//*[a["+p+"]]", inCfg)
+			add("*[*["+p+"]/*]", inCfg)
+		}
+	}
 	// (E)[n]
 	for _, e := range []string{"a", "*", "//a", "//*", "@*", "*/a", "a/@a", "*/*", "descendant::a", "descendant::*", "self::*", "child::node()", "*/@*"} {
 		for _, n := range []string{"1", "2", "3"} {
